@@ -259,10 +259,7 @@ def decorate(rng, prog):
         # the cw1 shape: an exec handler taking messages typed with the interface's own `ExecC`
         hs = [h for h in part["handlers"] if h["kind"] == "exec" and not any(a["name"].startswith("p1") for a in h["args"])]
         if part["custom_mode"] == "assoc" and hs and rng.random() < 0.3:
-            h = rng.choice(hs)
-            if "msgs" not in {a["name"] for a in h["args"]}:
-                h["args"].append({"name": "msgs", "ti": intern_type(prog, T.cosmos_msgs(prog["custom"]["msg"]))})
-                part["special_params"] = {"ExecC": "MyMsg" if prog["custom"]["msg"] else "Empty"}
+            add_cosmos_msgs_arg(prog, part, rng.choice(hs))
     if len(ifaces) >= 2 and rng.random() < 0.35:
         # two interfaces whose module paths end in the same identifier (`a_ns::common`, `b_ns::common`), told apart with `as`
         same_trait = rng.random() < 0.5
@@ -292,6 +289,20 @@ def decorate(rng, prog):
         prog["impl_between"] = [(rng.randrange(0, 12), it) for it in items]
 
 
+def add_cosmos_msgs_arg(prog, part, h=None):
+    """The cw1 shape: an exec handler of an interface with associated custom types takes `msgs: Vec<CosmosMsg<Self::ExecC>>`."""
+    if h is None:
+        hs = [x for x in part["handlers"] if x["kind"] == "exec"]
+        if not hs:
+            return False
+        h = hs[0]
+    if "msgs" in {a["name"] for a in h["args"]}:
+        return False
+    h["args"].append({"name": "msgs", "ti": intern_type(prog, T.cosmos_msgs(prog["custom"]["msg"]))})
+    part["special_params"] = {"ExecC": "MyMsg" if prog["custom"]["msg"] else "Empty"}
+    return True
+
+
 def add_shared_alias(rng, prog):
     """Two parts accept the same extra name (a forwarded `serde(alias)`) for one of their messages of one kind.  The name
     is in nobody's `*_messages()` table; a document under it is accepted by two parts."""
@@ -299,10 +310,16 @@ def add_shared_alias(rng, prog):
         owners = [part for part in prog["parts"] if any(h["kind"] == kind for h in part["handlers"])]
         if len(owners) >= 2:
             name = f"shared_{kind}_zz"
+            first = None
             for part in rng.sample(owners, 2):
                 h = rng.choice([h for h in part["handlers"] if h["kind"] == kind])
                 h["sv_attrs"] = list(h.get("sv_attrs", [])) + [f"serde(alias = \"{name}\")"]
                 h["shared_alias"] = name
+                if first is None:
+                    first = h
+                elif not any(getattr(prog["types"][a["ti"]], "param", None) for a in first["args"] + h["args"]):
+                    # the same arguments: one body is a message of both parts
+                    h["args"] = [dict(a) for a in first["args"]]
             return name
     return None
 
